@@ -246,10 +246,12 @@ where
                                     return Ok(Some(right));
                                 }
                             }
-                            t => Err(format!("Association created with non-symbol type {:?} on pair left.", t))?,
+                            // pair keyed by something other than a symbol, not what we are looking for
+                            _ => {}
                         }
                     }
-                    t => Err(format!("Association created with non-pair type {:?}.", t))?,
+                    // list items that are not pairs share the table, not what we are looking for
+                    _ => {}
                 },
             }
             
